@@ -817,7 +817,18 @@ fn rand_wid(rng: &mut Prng, i: usize) -> WId {
         name,
         generation: *rng.pick(&[0u64, 1, 255, 256, u64::MAX, 1_700_000_000]),
         ipv: if v6 { 6 } else { 4 },
-        ip: if v6 { ((rng.next_u64() as u128) << 64) | rng.next_u64() as u128 } else { rng.next_u64() as u32 as u128 },
+        ip: if v6 {
+            match rng.below(6) {
+                // special IPv6 forms: IPv4-mapped (::ffff:a.b.c.d), IPv4-compatible, loopback, unspecified
+                0 => 0xffff_0000_0000u128 | (rng.next_u64() as u32 as u128),
+                1 => rng.next_u64() as u32 as u128,
+                2 => 1,
+                3 => 0,
+                _ => ((rng.next_u64() as u128) << 64) | rng.next_u64() as u128,
+            }
+        } else {
+            rng.next_u64() as u32 as u128
+        },
         port: rng.next_u64() as u16,
     }
 }
@@ -1072,9 +1083,35 @@ pub async fn gen_fd(sim: &mut Sim, rng: &mut Prng, stats: &mut Stats, name: &str
                 sim.tick(dt).await;
                 stats.bump("tick_long");
             }
-            80..=96 => {
+            80..=89 => {
                 sim.eval(0);
                 stats.bump("op_eval");
+            }
+            90..=97 => {
+                // data for a (possibly live) member: an incremental delta raising its max version,
+                // or a reset delta (higher watermark, from 0) that may LOWER its max version
+                let mi = rng.below(2) as usize;
+                let cur = sim.nodes[0].chitchat.node_state(&members[mi]).map(|ns| (ns.last_gc_version(), ns.max_version()));
+                if let Some((gc, mx)) = cur {
+                    let reset = rng.chance(1, 2);
+                    let ops = if reset {
+                        let ngc = gc.max(mx) + 1 + rng.below(3);
+                        // strictly below the current max version when there is room
+                        let v = if mx >= 2 { 1 + rng.below(mx - 1) } else { 1 };
+                        stats.bump("fd_reset_delta");
+                        vec![
+                            WOp::Node { id: wids[mi].clone(), gc: ngc, from: 0 },
+                            WOp::Kv { key: b"a".to_vec(), value: b"x".to_vec(), version: v, status: 0 },
+                        ]
+                    } else {
+                        stats.bump("fd_incremental_delta");
+                        vec![
+                            WOp::Node { id: wids[mi].clone(), gc, from: mx },
+                            WOp::Kv { key: b"a".to_vec(), value: b"y".to_vec(), version: mx + 1 + rng.below(5), status: rng.below(3) as u8 },
+                        ]
+                    };
+                    sim.deliver(0, &ack_bytes(&ops, 16384, false));
+                }
             }
             _ => {
                 sim.syn(0);
